@@ -235,12 +235,30 @@ def r7_order(cx):
             else:
                 cx.ok(it.node, "%s iterates an ordered expression" % q, construct="%s over %s" % (it.kind, short(it.iterable, 80)))
     m = sd.func("marshal", "C11.R7")
-    maps = [x for x in find_calls(m.body) if call_name(x) in ("map",) or call_attr(x) == "map"]
-    ok = len(maps) == 2 and all(len(x.args) == 4 and U(x.args[2]) == "v" for x in maps) and all(isinstance(parent(x), ast.Call) and call_name(parent(x)) == "list" for x in maps)
+    def _is_map(x):
+        if call_name(x) == "map" or call_attr(x) == "map":
+            return True
+        if isinstance(x.func, ast.IfExp):
+            return all(U(a) == "map" or (isinstance(a, ast.Attribute) and a.attr == "map") for a in (x.func.body, x.func.orelse))
+        if isinstance(x.func, ast.Name):
+            ds = assigns_to(m, x.func.id)
+            alts = []
+            for d in ds:
+                v = d.value
+                alts += [v.body, v.orelse] if isinstance(v, ast.IfExp) else [v]
+            return bool(alts) and all(U(a) == "map" or (isinstance(a, ast.Attribute) and a.attr == "map") for a in alts)
+        return False
+    maps = [x for x in find_calls(m.body) if _is_map(x)]
+    ok = len(maps) >= 1 and all(len(x.args) == 4 and U(x.args[2]) == "v" and U(x.args[0]) == "call_serializer" for x in maps) and all(isinstance(parent(x), ast.Call) and call_name(parent(x)) == "list" for x in maps)
     cx.require(ok, maps[0] if maps else m, "marshal maps the serializer over the value list in order (map / pool.map, both order preserving)",
                construct=" | ".join(short(x, 70) for x in maps) if maps else "(no map)")
     res = [a for a in walk_body(m.body) if isinstance(a, ast.Assign) and U(a.targets[0]) == "results"]
-    ok = bool(res) and U(res[0].value) == "[i[0] for i in data if i[0]]"
+    ok = len(res) == 1 and isinstance(res[0].value, ast.ListComp) and len(res[0].value.generators) == 1
+    if ok:
+        lc = res[0].value
+        g = lc.generators[0]
+        first = "%s[0]" % U(g.target) if isinstance(g.target, ast.Name) else (U(g.target.elts[0]) if isinstance(g.target, ast.Tuple) and len(g.target.elts) == 2 else None)
+        ok = U(g.iter) == "data" and first is not None and U(lc.elt) == first and [U(i) for i in g.ifs] in ([first], [])
     cx.require(ok, res[0] if res else m, "results are the serialised elements in input order (failed elements omitted)", construct=short(res[0]) if res else "(none)")
     u = sd.func("unmarshal", "C11.R7")
     rets = [r for r in walk_body(u.body) if isinstance(r, ast.Return) and isinstance(r.value, ast.ListComp)]
